@@ -8,6 +8,7 @@ mod authz;
 mod grpcauth;
 mod cfgcenter;
 mod codec;
+mod echoreplay;
 mod logfile;
 mod meta;
 mod node;
@@ -35,6 +36,7 @@ fn main() {
         ("record", "logfile") => logfile::record(&args[3..]),
         ("replay", "sm") => smreplay::replay(&args[3..]),
         ("record", "sm") => smreplay::record(&args[3..]),
+        ("replay", "echo") => echoreplay::replay(&args[3..]),
         ("replay", "snapinstall") => snapinstall::replay(&args[3..]),
         ("replay", "cfgcenter") => cfgcenter::replay(&args[3..]),
         ("replay", "registry") => registry::replay(&args[3..]),
